@@ -14,7 +14,7 @@
      5. had_profile/old_profile; builtins.__dict__["profile"] = profile
      6. try: profile.runctx(stmt)  except SystemExit / KeyboardInterrupt: message
      7. finally: if had_profile: builtins.__dict__["profile"] = old_profile
-        [current tree: nothing is done when had_profile is False]
+                 else: builtins.__dict__.pop("profile", None)        (since 350dbfa)
      8. any other exception leaves here
      9. print_stats -> rstrip -> page; print(message); -D dump_stats; -T write; -r return *)
 From Coq Require Import QArith.
@@ -82,11 +82,12 @@ Definition unit_of (u : uarg) : option funit := match u with UOk v => Some v | _
 Definition msg_of (o : outcome) : Z :=
   match o with SysExit => 1 | KbdInt => 2 | _ => 0 end.
 
-(* THE REPAIR SWITCH.  false = the tree as it is: the finally block does nothing
-   when no builtin `profile` existed.  The two-line fix
-       else: del builtins.__dict__["profile"]      (or .pop("profile", None))
-   corresponds to flipping this constant to true. *)
-Definition tree_deletes_inserted_profile : bool := false.
+(* THE REPAIR SWITCH.  true = the tree since /repo 350dbfa: the finally block reads
+       if had_profile: builtins.__dict__["profile"] = old_profile
+       else:           builtins.__dict__.pop("profile", None)
+   false = the tree before that commit (nothing was done when no builtin `profile`
+   existed, so the magic's profiler stayed in builtins). *)
+Definition tree_deletes_inserted_profile : bool := true.
 
 Definition restore_builtins (fixed : bool) (old cur : option Z) : option Z :=
   match old with
@@ -167,13 +168,6 @@ Section Lprun.
     | Some _, Some _, UBad => false
     | Some _, Some _, _ => true
     | _, _, _ => false
-    end.
-
-  (* the profiler left behind by a sequence that starts without a builtin `profile` *)
-  Fixpoint first_reaching (xs : list (args * stmt)) (id : Z) : option Z :=
-    match xs with
-    | [] => None
-    | (a, _) :: t => if reaches a then Some id else first_reaching t (id + 1)
     end.
 
   Definition named (a : args) : list Z :=
